@@ -171,7 +171,7 @@ func TestVerifC29(t *testing.T) {
 	rep := vfNewReport("C29", "generated requests of the six command types; statement counts and SQL byte sizes at threshold-1/threshold/threshold+1/2x; default (512/4096) and random marshaler thresholds incl. 0 and negative; forced or not; non-trivial = compression was attempted (a threshold reached); distinct by entry bytes + settings")
 	defer rep.Write()
 	r := vfNewRng(29)
-	n := vfScale(1500, 40000)
+	n := vfScale(1500, 150000)
 	var ops, impl []string
 	for i := 0; i < n; i++ {
 		m := NewRequestMarshaler()
@@ -373,7 +373,7 @@ func c29CheckItem(it *c29Item) string {
 // c29Batch: marshal a whole batch first, holding every returned byte slice, and only then
 // wrap and decode each one. The result of Marshal is a value: later calls must not change it.
 func c29Batch(t *testing.T, rep *vfReport, r *vfRng) {
-	rounds := vfScale(40, 1500)
+	rounds := vfScale(40, 6000)
 	for round := 0; round < rounds; round++ {
 		m := NewRequestMarshaler()
 		m.SizeThreshold = 64 + r.Intn(200)
